@@ -1,3 +1,4 @@
+import EtVerif.Props.C14b
 import EtVerif.Props.TieStore
 import EtVerif.Props.C14
 #print axioms EtVerif.Ties.source_store_safe
@@ -7,3 +8,22 @@ import EtVerif.Props.C14
 #print axioms EtVerif.C03.stored_eq_inline
 #print axioms EtVerif.C03.stored_request_reduces
 #print axioms EtVerif.C03.endpoints_agree
+#print axioms EtVerif.C14b.heap_refines_pure_deepCopy
+#print axioms EtVerif.C14b.heap_refines_pure_setDim
+#print axioms EtVerif.C14b.heap_refines_pure_extractDistrust
+#print axioms EtVerif.C14b.heap_refines_pure_canonicalizeLocalTrust
+#print axioms EtVerif.C14b.heap_refines_pure
+#print axioms EtVerif.C14b.heap_refines_pure_of_old_pretrust
+#print axioms EtVerif.C14b.pipeline_frame
+#print axioms EtVerif.C14b.pipeline_frame_getElem
+#print axioms EtVerif.C14b.stored_unchanged
+#print axioms EtVerif.C14b.store_unchanged
+#print axioms EtVerif.C14b.pipeline_frame_deep_mode
+#print axioms EtVerif.C14b.shallow_copy_witness_rows
+#print axioms EtVerif.C14b.shallow_copy_witness
+#print axioms EtVerif.C14b.pretrust_alias_harmless
+#print axioms EtVerif.C14b.pretrust_unchanged_by_pipeline
+#print axioms EtVerif.C14b.sep_needed
+#print axioms EtVerif.C14b.canonLoopH_eq_take
+#print axioms EtVerif.C14b.pipelineH_frame
+#print axioms EtVerif.C14b.pipelineH_refines
